@@ -22,11 +22,16 @@ import (
 const kStale = "C06/stale-after-failed-invalidate"
 
 type config struct {
-	Flavour string        `json:"flavour"` // cache-node | cache-cluster | sqlc-node | sqlc-cluster
-	E       time.Duration `json:"expiry"`  // 0 = go-zero default (7 d)
-	NE      time.Duration `json:"not_found_expiry"`
-	StrPK   bool          `json:"string_primary_keys"`
-	NoCtx   bool          `json:"api_without_context"`
+	Flavour string `json:"flavour"` // cache-node | cache-cluster | sqlc-node | sqlc-cluster
+	// E / NE: the values handed to cache.WithExpiry / cache.WithNotFoundExpiry when
+	// HasE / HasNE (option absent otherwise). Non-positive values - an unset
+	// configuration field, a -1 sentinel - stand for go-zero's defaults (7 d / 1 min).
+	E     time.Duration `json:"expiry"`
+	NE    time.Duration `json:"not_found_expiry"`
+	HasE  bool          `json:"with_expiry_option"`
+	HasNE bool          `json:"with_not_found_expiry_option"`
+	StrPK bool          `json:"string_primary_keys"`
+	NoCtx bool          `json:"api_without_context"`
 }
 
 func (c config) expiry() time.Duration {
@@ -74,6 +79,7 @@ type hist struct {
 	dead   bool
 	pend   []pendViol
 
+	panicked                                  any // what the last call panicked with (nil: it returned)
 	taintAt                                   time.Time
 	taintCtxDead                              bool // an invalidation failed under a context that was cancelled once the call returned
 	hits, misses, invalidated, expired, fault int
@@ -133,10 +139,10 @@ func (h *hist) mkStore(alt bool) (store, string) {
 		ctx = nil
 	}
 	var opts []cache.Option
-	if cfg.E > 0 {
+	if cfg.HasE {
 		opts = append(opts, cache.WithExpiry(cfg.E))
 	}
-	if cfg.NE > 0 {
+	if cfg.HasNE {
 		opts = append(opts, cache.WithNotFoundExpiry(cfg.NE))
 	}
 	conf := func(nodes []*node) cache.ClusterConf {
@@ -293,13 +299,41 @@ func (h *hist) call(o op, fn func()) {
 			h.c.Obs("calls_under_ctx_"+o.Ctx, 1)
 		}
 	}
+	h.panicked = nil
+	h.db.panicOnce = o.Panic
+	defer func() {
+		// a panic leaving a go-zero call is recovered the way a request handler's
+		// recover middleware does; the op decides what it means
+		h.panicked = recover()
+		h.db.panicOnce = false
+		h.w.inOp.Store(false)
+		after()
+		if !h.cfg.NoCtx {
+			h.st.use(hctx)
+		}
+		if h.panicked != nil && o.K != "read" && o.K != "index" {
+			panic(h.panicked) // nothing in the statement speaks about it: harness error, as before
+		}
+	}()
 	h.w.inOp.Store(true)
 	fn()
-	h.w.inOp.Store(false)
-	after()
-	if !h.cfg.NoCtx {
-		h.st.use(hctx)
+}
+
+// panickedOp judges a call that ended with a panic. The injected panic of the
+// query closure (op.Panic) is the caller's own bug passing through: nothing is
+// demanded of that call - but the key must stay readable, later reads are held
+// to the ordinary oracle. Any other panic is go-zero failing the read.
+func (h *hist) panickedOp(o op, what string, res map[string]any) bool {
+	if h.panicked == nil {
+		return false
 	}
+	if o.Panic && h.panicked == any(errLoaderPanic) {
+		h.c.Obs("loader_panics_recovered", 1)
+		return true
+	}
+	res["panic"] = fmt.Sprint(h.panicked)
+	h.viol("C06/coherence/read-panicked/"+what, fmt.Sprintf("%s panicked: %v", o.String(), h.panicked), res)
+	return true
 }
 
 // staleEmitted caps the known-finding reports per case, so that they can never
@@ -453,6 +487,18 @@ func (h *hist) checkScan(written map[string]wr, mustAbsent map[string]string, ff
 				}
 				checkLo = st.class != "setexp-nonpositive"
 				h.c.Obs("entries_written", 1)
+				// written under an expiry option that is non-positive (defaults expected) / below one second (rounded up)
+				opt, has := h.cfg.E, h.cfg.HasE
+				if st.class == "placeholder" {
+					opt, has = h.cfg.NE, h.cfg.HasNE
+				}
+				switch {
+				case st.class == "setexp" || !has:
+				case opt <= 0:
+					h.c.Obs("entries_written_nonpositive_option_"+rowOrMarker(st.class), 1)
+				case opt < time.Second:
+					h.c.Obs("entries_written_subsecond_option_"+rowOrMarker(st.class), 1)
+				}
 			} else {
 				st.lo, st.hi, st.class = 0, globalHi, "unmodelled"
 				h.c.Obs("unmodelled_writes", 1)
@@ -477,4 +523,11 @@ func (h *hist) checkScan(written map[string]wr, mustAbsent map[string]string, ff
 		}
 	}
 	h.prev = post
+}
+
+func rowOrMarker(class string) string {
+	if class == "placeholder" {
+		return "marker"
+	}
+	return "row"
 }
